@@ -418,6 +418,37 @@ def body_reuse(case, ctx):
     dt = H.dist_klein(Kcur, KQb)
     ctx.small("image: distances are preserved", (dR - dt) / (20 * dist_tol(Kcur, KQb, dt)), 1.0)
     _reads_agree(ctx, P, Kcur, Q, KQ, "the original after being transformed")
+    # the module-level factory: Klein coordinates unless a model is named
+    GP = hyperbolic.get_point(K1.copy())
+    ctx.close("get_point(coords) reads Klein coordinates", np.array(GP.coords("klein")), K1,
+              rtol=0, atol=1e-12)
+    GP2 = hyperbolic.get_point(H.klein_to_model(K1, s2), s2)
+    ctx.close("get_point(coords, model)", np.array(GP2.coords("klein")), K1, rtol=1e-9,
+              atol=1e-10)
+    # a point first given by integer-typed data (a lattice point of the projective model, the
+    # origin) and then moved with the coordinate setter: it is where it was put
+    ip = np.zeros(shape + (n + 1,), dtype=np.int64)
+    ip[..., 0] = 2
+    ip[..., 1] = 1
+    PI = hyperbolic.Point(ip)
+    PI.coords("projective", H.klein_to_model(K2, "projective") * 1.5)
+    _reads_agree(ctx, PI, K2, Q, KQ, "an integer-typed point after coords('projective', data)")
+    PI2 = hyperbolic.Point.get_origin(n, shape, dtype=int) if n >= 1 else None
+    PI2.coords("projective", H.klein_to_model(K1, "projective"))
+    _reads_agree(ctx, PI2, K1, Q, KQ, "an integer-typed origin after coords('projective', data)")
+    # the same coordinates read on an object that holds two of the points (a pair, a segment)
+    if shape == () or True:
+        A_, B_ = _build(K1, s1), _build(K2, s3)
+        for cls_ in (hyperbolic.PointPair, hyperbolic.Segment):
+            try:
+                pair = cls_(A_, B_)
+            except Exception:      # (coincident points make no segment: C14's business)
+                continue
+            for m_ in ("klein", "poincare", "halfspace"):
+                ctx.close("%s.coords(%s) are the coordinates of its two points"
+                          % (cls_.__name__, m_), np.array(pair.coords(m_)),
+                          np.stack([H.klein_to_model(K1, m_), H.klein_to_model(K2, m_)],
+                                   axis=-2), rtol=1e-8, atol=1e-9)
     # the origin handed out by the library is the caller's to re-use as a buffer: whatever is
     # written into it, the next origin asked for is the origin
     O1 = hyperbolic.Point.get_origin(n, shape)
